@@ -207,8 +207,12 @@ package ttlv
 //@   ensures off(enc.buf) == old(off(enc.buf)) && (samearr(enc.buf, old(enc.buf)) || isnew(enc.buf))
 //@   modifies enc.buf, elems(enc.buf)
 
+// an Interval is a 32-bit unsigned number of seconds: a duration that is negative or does not fit is refused
+// (panic, the writer has no error result) instead of being written as another value
 //@ func (*ttlvWriter).Interval
-//@   requires enc != nil && 0 <= interval && int64(interval)%1000000000 == 0 && int64(interval)/1000000000 < 1<<32
+//@   requires enc != nil && int64(interval)%1000000000 == 0
+//@   maypanic
+//@   ensures 0 <= interval && int64(interval)/1000000000 < 1<<32
 //@   ensures is_cat(enc.buf, old(enc.buf), hdrseq(tag, 10, 4), be32seq(int64(interval)/1000000000), 0, 0, 0, 0)
 //@   ensures off(enc.buf) == old(off(enc.buf)) && (samearr(enc.buf, old(enc.buf)) || isnew(enc.buf))
 //@   modifies enc.buf, elems(enc.buf)
